@@ -6,15 +6,27 @@ HCI_LE_Meta_Event.subevent_classes (+ every sync command's return-parameter clas
 Command Complete event) is enumerated at run time; field values are drawn by the spec-driven
 generator (vlib/specgen.py) together with a reference wire encoding computed by the harness.
 ACL / SCO / ISO data packets, vendor events and unregistered codes have their own strategies.
+
+Extension: the two vendor modules shipped with Bumble (bumble.vendor.android.hci, bumble.vendor.zephyr.hci)
+are imported, so their commands / return parameters are part of the enumerated registries and the Android
+vendor-event factory is installed; Command Complete events for opcodes without a return-parameter class;
+enum-typed fields given as plain integers; exhaustive sweeps of the 8-bit code spaces; a harness-side
+reference for the fields whose codec is an opaque callable; repeated groups filled to the packet capacity.
 """
 
 from __future__ import annotations
 
+import dataclasses
+import enum
 import struct
 
 from hypothesis import strategies as st
 
 from bumble import hci
+# Vendor packet classes register themselves (decorators, vendor-event factory) when imported: import
+# them before any registry is read.
+import bumble.vendor.android.hci as android_hci
+import bumble.vendor.zephyr.hci as zephyr_hci  # noqa: F401  (registers two commands)
 from vlib import specgen
 from vlib.runner import HarnessError
 
@@ -26,7 +38,15 @@ RULE = (
     'drawn boundary-biased with a harness-side reference encoding; oracle = fields->bytes equals '
     'reference, bytes->fields equals generated, fresh object rebuilt from parsed fields re-serialises '
     'to the same bytes. non-trivial = packet has >=1 field byte and not all field bytes are zero; '
-    'distinct by (class, wire bytes).'
+    'distinct by (class, wire bytes). Extension: bumble.vendor.android/zephyr are imported (their commands and '
+    'return parameters are enumerated like the others; LE_Get_Vendor_Capabilities return parameters in every '
+    'released layout version and as a status-only error answer; Bluetooth Quality Report vendor sub-event '
+    'through the installed vendor factory; vendor events no factory claims, incl. the empty one); Command '
+    'Complete for unknown / asynchronous-command / zero opcodes (generic return parameters preserved); every '
+    'packet with enum-typed fields is also built with plain integers in their place; all unregistered 8-bit '
+    'event and sub-event codes and a stratified (quick) / complete (thorough) sweep of the unregistered 16-bit '
+    'opcodes; harness-side reference values for CodingFormat and fixed-type address fields (opaque specs); '
+    'repeated groups filled up to the capacity of the packet.'
 )
 ASSUMPTIONS = [
     'well-formed = header length equals body length, repeated groups carry their exact item count, '
@@ -34,6 +54,18 @@ ASSUMPTIONS = [
     'ISO Packet_Status_Flag is the Core-spec 2-bit field (bits 14-15 of the SDU-length word)',
     'Command Complete with status != SUCCESS carries the status byte only',
     'values are sampled (boundary-biased); only the class registry is enumerated exhaustively',
+    'the vendor modules shipped in bumble/vendor are part of "every packet Bumble can build": they register '
+    'classes and a vendor-event factory by the same decorators, at import time',
+    'LE_Get_Vendor_Capabilities return parameters are well-formed in the released layouts (9, 15, 16, 21, 25 '
+    'bytes = v0.55 / v0.95 / v0.96 / v0.98 / v1.03, each a prefix of the field list; the class documents '
+    '"parse until there are no more bytes") and as a status-only answer with status != SUCCESS; for the '
+    'shorter layouts only the signalled fields and bytes(parsed) == received bytes are judged',
+    'a Bluetooth Quality Report with a report id outside the ids the factory names (1-4, 7-9) may come back '
+    'either as the report class or as a generic vendor event (bytes preserved in both cases)',
+    'a vendor event is well-formed with any parameters, including none; one that starts with the Quality '
+    'Report sub-event code is only generated with all fixed fields present',
+    'an enum-typed field accepts the plain integer of the same value (the dataclass annotations say int and '
+    'Bumble\'s own callers pass integer constants)',
 ]
 
 CMD, EVT, LE, CC = 'command', 'event', 'le_subevent', 'command_complete'
@@ -191,7 +223,44 @@ def check_packet(ctx, kind, cls, packet: bytes, values: dict, expected: dict, ca
     if again != packet or rebuilt != packet:
         ctx.fail(f'reencode/{name}', f'parsed {name} re-serialises to {rebuilt.hex()} instead of {packet.hex()}', case)
         return False
+    # clause 5 (extension): the same field values with every enum member replaced by its plain integer
+    # (the form Bumble's own callers use: reason=HCI_REMOTE_USER_TERMINATED_CONNECTION_ERROR, status=0, ...)
+    # build the same bytes
+    plain, changed = plain_ints(values)
+    if changed:
+        ctx.label('plain_int_enum')
+        try:
+            built_plain = bytes(cls(**plain))
+        except Exception as e:
+            ctx.fail(f'encode_plain_int_raises/{name}/{type(e).__name__}',
+                     f'building {name} with plain integers in its enum-typed fields raised {e!r}', case)
+            return False
+        if built_plain != packet:
+            ctx.fail(f'encode_plain_int/{name}',
+                     f'{name} built with plain integers in its enum-typed fields serialises to {built_plain.hex()} instead of {packet.hex()}', case)
+            return False
     return True
+
+
+def plain_ints(v):
+    """(v with every enum member replaced by the int of the same value, whether anything was replaced).
+    Descends into lists, dicts of constructor arguments and HCI_Object dataclasses (return parameters,
+    nested report structures); Address, CodingFormat and other value objects are left alone."""
+    if isinstance(v, enum.Enum) and isinstance(v, int):
+        return int(v), True
+    if isinstance(v, dict):
+        out, changed = {}, False
+        for k, x in v.items():
+            out[k], c = plain_ints(x)
+            changed |= c
+        return out, changed
+    if isinstance(v, list):
+        pairs = [plain_ints(x) for x in v]
+        return [p[0] for p in pairs], any(p[1] for p in pairs)
+    if isinstance(v, hci.HCI_Object) and dataclasses.is_dataclass(v):
+        kw, changed = plain_ints({f.name: getattr(v, f.name) for f in dataclasses.fields(v) if f.init})
+        return (type(v)(**kw), True) if changed else (v, False)
+    return v, False
 
 
 def nontrivial(wire: bytes) -> bool:
@@ -225,10 +294,14 @@ def run_registry(ctx, kind, registry, per_class):
             values, wire, expected = drawn
             packet = header(kind, code, wire) + wire
             case = {'kind': 'packet', 'packet': packet}
-            check_packet(ctx, kind, cls, packet, values, expected, case)
+            ok = check_packet(ctx, kind, cls, packet, values, expected, case)
             labels = [kind]
             if cls not in SPECIAL:
                 labels += ['spec:' + specgen.classify(s)[0] for s in _specs(cls.fields)]
+                if ok:
+                    labels += check_opaque_reference(ctx, cls, packet, len(packet) - len(wire), case)
+            if is_vendor(cls):
+                labels.append('vendor_' + kind)
             ctx.case((cls.__name__, wire), nontrivial(wire), set(labels), sample={'class': cls.__name__, 'packet': packet.hex()})
 
         try:
@@ -256,6 +329,11 @@ def run_command_complete(ctx, per_class):
         if rp is None or not issubclass(cmd, hci.HCI_SyncCommand):
             continue
         n += 1
+        if has_custom_return_codec(cmd, rp):
+            if cmd not in SPECIAL_CC:
+                raise HarnessError(f'{cmd.__name__} parses its return parameters with its own code and has no dedicated strategy')
+            SPECIAL_CC[cmd](ctx, per_class * 4)
+            continue
         status_first = issubclass(rp, hci.HCI_StatusReturnParameters)
         try:
             if status_first:
@@ -269,6 +347,8 @@ def run_command_complete(ctx, per_class):
         def one(drawn, cmd=cmd, rp=rp, code=code, status_first=status_first):
             ncmd, status, (values, wire, expected) = drawn
             labels = {CC}
+            if is_vendor(cmd):
+                labels.add('vendor_cc')
             if status_first:
                 if status == 0:
                     rp_in = rp(status=hci.HCI_ErrorCode(0), **values)
@@ -364,7 +444,7 @@ def run_unknown(ctx, n):
 
     def vendor(p):
         packet = header(EVT, 0xFF, p) + p
-        case = {'kind': 'packet', 'packet': packet}
+        case = {'kind': 'packet', 'packet': packet, 'no_factories': True}
         saved = list(hci.HCI_Event.vendor_factories)
         hci.HCI_Event.vendor_factories.clear()
         try:
@@ -502,6 +582,478 @@ def run_data(ctx, n):
     )
 
 
+# ---------------------------------------------------------------------------
+# extension: vendor modules, generic Command Complete, sweeps, opaque reference, full groups
+# ---------------------------------------------------------------------------
+def _le16(b: bytes) -> int:
+    return int.from_bytes(b[:2], 'little')
+
+
+def is_vendor(cls) -> bool:
+    return cls.__module__.startswith('bumble.vendor')
+
+
+def has_custom_return_codec(cmd, rp) -> bool:
+    """Return parameters whose wire rules the field list alone does not express."""
+    for k in cmd.__mro__:
+        if k in (hci.HCI_SyncCommand, hci.HCI_Command, object):
+            break
+        if 'parse_return_parameters' in k.__dict__:
+            return True
+    for k in rp.__mro__:
+        if k in (hci.HCI_StatusReturnParameters, hci.HCI_ReturnParameters, hci.HCI_Object, object):
+            break
+        if 'from_parameters' in k.__dict__ or '__bytes__' in k.__dict__:
+            return True
+    return False
+
+
+# --- fields whose spec is an opaque callable: values from the harness, not from Bumble's parser
+_RANDOM_ADDRESS_FIELDS = {
+    (hci.HCI_LE_Set_Random_Address_Command, 'random_address'),
+    (hci.HCI_LE_Set_Advertising_Set_Random_Address_Command, 'random_address'),
+}
+
+
+def check_opaque_reference(ctx, cls, packet: bytes, body_offset: int, case) -> list:
+    labels = []
+    fields = list(cls.fields)
+    parsed = None
+    for i, f in enumerate(fields):
+        if isinstance(f, list):
+            continue
+        fname, spec = f
+        kind, d = specgen.classify(spec)
+        if kind != 'opaque':
+            continue
+        _, off = specgen.decode_fields(fields[:i], packet, body_offset)
+        if parsed is None:
+            parsed = hci.HCI_Packet.from_bytes(packet)
+        got = getattr(parsed, fname)
+        if getattr(d[0], '__self__', None) is hci.CodingFormat:
+            raw = packet[off : off + 5]
+            ref = (raw[0], _le16(raw[1:3]), _le16(raw[3:5]))
+            have = (int(got.codec_id), got.company_id, got.vendor_specific_codec_id)
+            if have != ref:
+                ctx.fail(f'decode_reference/{cls.__name__}/CodingFormat',
+                         f'{fname}: bytes {raw.hex()} mean (codec, company, vendor codec) = {ref}, parsed as {have}', case)
+            elif bytes(hci.CodingFormat(hci.CodecID(ref[0]), ref[1], ref[2])) != raw:
+                ctx.fail(f'encode_reference/{cls.__name__}/CodingFormat',
+                         f'CodingFormat{ref} serialises to {bytes(hci.CodingFormat(hci.CodecID(ref[0]), ref[1], ref[2])).hex()}, the wire format is {raw.hex()}', case)
+            labels.append('opaque_ref:CodingFormat')
+        elif (cls, fname) in _RANDOM_ADDRESS_FIELDS:
+            raw = packet[off : off + 6]
+            if bytes(got) != raw or int(got.address_type) != int(hci.Address.RANDOM_DEVICE_ADDRESS):
+                ctx.fail(f'decode_reference/{cls.__name__}/random_address',
+                         f'{fname}: bytes {raw.hex()} parsed as {bytes(got).hex()} type {int(got.address_type)}', case)
+            labels.append('opaque_ref:random_address')
+        else:
+            labels.append('opaque_unreferenced')
+    return labels
+
+
+# --- Command Complete for an opcode without a return-parameter class -------------------------
+def judge_cc_generic(ctx, packet: bytes, case) -> bool:
+    """unknown opcode, opcode of an asynchronous command, opcode 0: the return parameters are opaque to
+    Bumble and must be preserved byte for byte in both directions."""
+    E, G = hci.HCI_Command_Complete_Event, hci.HCI_GenericReturnParameters
+    body = packet[3:]
+    ncmd, op, rp = body[0], _le16(body[1:3]), body[3:]
+    try:
+        built = bytes(E(num_hci_command_packets=ncmd, command_opcode=op, return_parameters=G(data=rp)))
+    except Exception as e:
+        ctx.fail(f'cc_generic/encode_raises/{type(e).__name__}', f'building a Command Complete with generic return parameters raised {e!r}', case)
+        return False
+    if built != packet:
+        ctx.fail('cc_generic/encode', f'serialises to {built.hex()} but the wire format is {packet.hex()}', case)
+        return False
+    try:
+        parsed = hci.HCI_Packet.from_bytes(packet)
+    except Exception as e:
+        ctx.fail(f'cc_generic/decode_raises/{type(e).__name__}', f'Command Complete for opcode 0x{op:04x} (no return-parameter class): {e!r}', case)
+        return False
+    if type(parsed) is not E or parsed.num_hci_command_packets != ncmd or parsed.command_opcode != op:
+        ctx.fail('cc_generic/decode_fields', f'parsed as {type(parsed).__name__} opcode {getattr(parsed, "command_opcode", None)}', case)
+        return False
+    try:
+        kept = bytes(parsed.return_parameters)
+    except Exception as e:
+        ctx.fail(f'cc_generic/not_preserved/{type(e).__name__}', repr(e), case)
+        return False
+    if kept != rp:
+        ctx.fail('cc_generic/not_preserved', f'return parameters {rp.hex()} of opcode 0x{op:04x} come back as {kept.hex()}', case)
+        return False
+    try:
+        again = bytes(parsed)
+        rebuilt = bytes(E(num_hci_command_packets=parsed.num_hci_command_packets, command_opcode=parsed.command_opcode,
+                          return_parameters=parsed.return_parameters))
+    except Exception as e:
+        ctx.fail(f'cc_generic/reencode_raises/{type(e).__name__}', repr(e), case)
+        return False
+    if again != packet or rebuilt != packet:
+        ctx.fail('cc_generic/reencode', f're-serialises to {rebuilt.hex()} instead of {packet.hex()}', case)
+        return False
+    return True
+
+
+def cc_is_generic(op: int) -> bool:
+    cmd = hci.HCI_Command.command_classes.get(op)
+    return cmd is None or not issubclass(cmd, hci.HCI_SyncCommand)
+
+
+def run_cc_generic(ctx, n):
+    known = hci.HCI_Command.command_classes
+    async_ops = sorted(op for op, c in known.items() if not issubclass(c, hci.HCI_SyncCommand))
+    unknown = st.one_of(st.integers(1, 0xFFFF), st.integers(0xFC00, 0xFFFF),
+                        st.sampled_from(sorted(known)).map(lambda o: o ^ 0x0200)).filter(lambda o: o not in known and o != 0)
+    ops = st.one_of(st.tuples(st.just('nop'), st.just(0)), st.tuples(st.just('async'), st.sampled_from(async_ops)),
+                    st.tuples(st.just('unknown'), unknown))
+    rps = st.one_of(st.just(b''), st.sampled_from([b'\x00', b'\x01', b'\x0c']), st.binary(max_size=8),
+                    st.binary(min_size=252, max_size=252), st.binary(max_size=252))
+
+    def one(d):
+        ncmd, (what, op), rp = d
+        body = bytes([ncmd]) + op.to_bytes(2, 'little') + rp
+        packet = header(EVT, hci.HCI_COMMAND_COMPLETE_EVENT, body) + body
+        case = {'kind': 'packet', 'packet': packet}
+        judge_cc_generic(ctx, packet, case)
+        ctx.case(('ccg', op, ncmd, rp), True, {CC, 'cc_generic', 'cc_generic_' + what},
+                 sample={'command_complete_generic': packet.hex()})
+
+    ctx.hyp('cc/generic', one, st.tuples(specgen.uint(1), ops, rps), max_examples=n)
+
+
+# --- Android LE_Get_Vendor_Capabilities: a versioned return-parameter structure --------------
+VCAPS_LAYOUTS = (9, 15, 16, 21, 25)  # v0.55, v0.95, v0.96, v0.98, v1.03: each a prefix of the field list
+VCAPS = android_hci.HCI_LE_Get_Vendor_Capabilities_Command
+
+
+def judge_vcaps(ctx, packet: bytes, case) -> set:
+    E = hci.HCI_Command_Complete_Event
+    rp = VCAPS.return_parameters_class
+    name = VCAPS.__name__
+    body = packet[3:]
+    ncmd, op, rpw = body[0], _le16(body[1:3]), body[3:]
+    sizes = [specgen.min_size(spec) for _, spec in rp.fields]
+    if len(rpw) == sum(sizes) and rpw[0] == 0:
+        vals, _ = specgen.decode_fields(rp.fields, body, 3)
+        v = {'num_hci_command_packets': ncmd, 'command_opcode': op, 'return_parameters': rp(**vals)}
+        if check_packet(ctx, CC, E, packet, v, v, case):
+            parsed = hci.HCI_Packet.from_bytes(packet)
+            if type(parsed.return_parameters) is not rp:
+                ctx.fail(f'decode_class/return_parameters/{name}',
+                         f'return parameters parsed as {type(parsed.return_parameters).__name__}, expected {rp.__name__}', case)
+        return {'vcaps_full'}
+    # an older (shorter) layout, or the status-only answer of a controller that refuses the command:
+    # judged in the receiving direction only
+    labels = {'vcaps_status_only'} if len(rpw) == 1 else {'vcaps_short_layout'}
+    try:
+        parsed = hci.HCI_Packet.from_bytes(packet)
+    except Exception as e:
+        ctx.fail(f'decode_raises/return_parameters/{name}/{type(e).__name__}',
+                 f'Command Complete carrying {len(rpw)} byte(s) of return parameters ({rpw.hex()}) raised {e!r}', case)
+        return labels
+    if type(parsed) is not E or parsed.num_hci_command_packets != ncmd or parsed.command_opcode != op:
+        ctx.fail(f'decode_fields/{E.__name__}', f'parsed as {type(parsed).__name__}', case)
+        return labels
+    r = parsed.return_parameters
+    off, bad = 0, []
+    for (fname, spec), size in zip(rp.fields, sizes):
+        if off + size > len(rpw):
+            break
+        ref, _ = specgen.decode_field(spec, rpw, off, False)
+        if specgen.canon(getattr(r, fname, '<missing>')) != specgen.canon(ref):
+            bad.append(fname)
+        off += size
+    if bad:
+        ctx.fail(f'decode_fields/return_parameters/{name}', f'signalled fields {bad} differ after parsing {packet.hex()}', case)
+        return labels
+    try:
+        again = bytes(parsed)
+    except Exception as e:
+        ctx.fail(f'reencode_raises/return_parameters/{name}/{type(e).__name__}', repr(e), case)
+        return labels
+    if again != packet:
+        ctx.fail(f'reencode/return_parameters/{name}', f're-serialises to {again.hex()} instead of {packet.hex()}', case)
+    return labels
+
+
+def run_vcaps(ctx, n):
+    rp = VCAPS.return_parameters_class
+    if [specgen.classify(s)[0] for _, s in rp.fields[1:]] != ['uint'] * (len(rp.fields) - 1) or \
+            sum(specgen.min_size(s) for _, s in rp.fields) != VCAPS_LAYOUTS[-1]:
+        raise HarnessError('LE_Get_Vendor_Capabilities return parameters changed shape: revisit VCAPS_LAYOUTS')
+    strat = st.tuples(specgen.uint(1), specgen.fields_strategy(rp.fields[1:], 251, prefix=b'\x00'),
+                      st.sampled_from([0x01, 0x0C, 0x11, 0x12, 0xFF]))
+
+    def one(d, layout):
+        ncmd, (_values, wire, _expected), status = d
+        rpw = bytes([status]) if layout == 1 else (b'\x00' + wire)[:layout]
+        body = bytes([ncmd]) + VCAPS.op_code.to_bytes(2, 'little') + rpw
+        packet = header(EVT, hci.HCI_COMMAND_COMPLETE_EVENT, body) + body
+        case = {'kind': 'packet', 'packet': packet}
+        labels = judge_vcaps(ctx, packet, case) | {CC, 'vendor_cc', f'vcaps_layout{layout}'}
+        ctx.case((VCAPS.__name__, 'cc', rpw, ncmd), nontrivial(rpw), labels,
+                 sample={'command_complete_for': VCAPS.__name__, 'packet': packet.hex()})
+
+    # the layouts are enumerated (every shard runs all of them), the values are drawn
+    for layout in VCAPS_LAYOUTS + (1,):
+        ctx.hyp(f'cc/{VCAPS.__name__}/{layout}', lambda d, layout=layout: one(d, layout), strat,
+                max_examples=max(8, n // (len(VCAPS_LAYOUTS) + 1)))
+
+
+SPECIAL_CC = {VCAPS: run_vcaps}
+
+
+# --- vendor events with the vendor-event factories installed ----------------------------------
+BQR = android_hci.HCI_Bluetooth_Quality_Report_Event
+BQR_SUBEVENT = android_hci.HCI_BLUETOOTH_QUALITY_REPORT_EVENT
+BQR_IDS = (0x01, 0x02, 0x03, 0x04, 0x07, 0x08, 0x09)  # the report ids Bumble's factory names
+
+
+def judge_vendor_event(ctx, packet: bytes, case) -> set:
+    V = hci.HCI_Vendor_Event
+    if not hci.HCI_Event.vendor_factories:
+        raise HarnessError('no vendor-event factory is installed')
+    body = packet[3:]
+    if body[:1] == bytes([BQR_SUBEVENT]):
+        fixed = sum(specgen.min_size(s) for _, s in BQR.fields)
+        if len(body) - 1 < fixed:
+            return {'vendor_bqr_short_not_judged'}  # not a well-formed report (replay of a shrunk case)
+        values, _ = specgen.decode_fields(BQR.fields, body, 1)
+        if body[1] in BQR_IDS:
+            check_packet(ctx, 'vendor_subevent', BQR, packet, values, values, case)
+            return {'vendor_bqr'}
+        # a report id the factory does not name: the report class or a generic vendor event, bytes kept
+        name = BQR.__name__
+        try:
+            built = bytes(BQR(**values))
+        except Exception as e:
+            ctx.fail(f'encode_raises/{name}/{type(e).__name__}', repr(e), case)
+            return {'vendor_bqr_other_id'}
+        if built != packet:
+            ctx.fail(f'encode/{name}', f'{name} serialises to {built.hex()} but the wire format is {packet.hex()}', case)
+            return {'vendor_bqr_other_id'}
+        try:
+            parsed = hci.HCI_Packet.from_bytes(packet)
+            again = bytes(parsed)
+        except Exception as e:
+            ctx.fail(f'decode_raises/{name}/{type(e).__name__}', repr(e), case)
+            return {'vendor_bqr_other_id'}
+        if type(parsed) is BQR:
+            bad = specgen.diff_fields(parsed, values)
+            if bad:
+                ctx.fail(f'decode_fields/{name}', f'fields {bad} differ after parsing {packet.hex()}', case)
+        elif type(parsed) is not V or parsed.data != body:
+            ctx.fail('vendor/declined_not_generic', f'parsed as {type(parsed).__name__}, parameters not preserved', case)
+        if again != packet:
+            ctx.fail(f'reencode/{name}', f're-serialises to {again.hex()} instead of {packet.hex()}', case)
+        return {'vendor_bqr_other_id'}
+    # no installed factory claims this event
+    labels = {'vendor_declined'} | ({'vendor_declined_empty'} if not body else set())
+    try:
+        parsed = hci.HCI_Packet.from_bytes(packet)
+    except Exception as e:
+        ctx.fail(f'vendor/factory_raises/{type(e).__name__}',
+                 f'a vendor event ({len(body)} parameter bytes) that no installed factory claims raised {e!r}', case)
+        return labels
+    try:
+        if type(parsed) is not V or parsed.data != body:
+            ctx.fail('vendor/declined_not_generic', f'parsed as {type(parsed).__name__}, parameters not preserved', case)
+        elif bytes(parsed) != packet or bytes(V(data=parsed.data)) != packet:
+            ctx.fail('vendor/declined_reencode', 'vendor event does not re-serialise to the same bytes', case)
+    except Exception as e:
+        ctx.fail(f'vendor/declined_raises/{type(e).__name__}', repr(e), case)
+    return labels
+
+
+def run_vendor_events(ctx, n):
+    if BQR.fields[0][0] != 'quality_report_id' or specgen.classify(BQR.fields[0][1]) != ('uint', 1):
+        raise HarnessError('Bluetooth Quality Report event changed shape')
+    ids = st.one_of(st.sampled_from(BQR_IDS), st.sampled_from(BQR_IDS), st.sampled_from([0x00, 0x05, 0x06, 0x0A, 0xFF]))
+
+    def bqr(d):
+        report_id, (_values, wire, _expected) = d
+        body = bytes([BQR_SUBEVENT, report_id]) + wire[1:]
+        packet = header(EVT, hci.HCI_VENDOR_EVENT, body) + body
+        case = {'kind': 'packet', 'packet': packet}
+        labels = judge_vendor_event(ctx, packet, case)
+        ctx.case(('bqr', body), True, labels | {'vendor_event_factory'}, sample={'class': BQR.__name__, 'packet': packet.hex()})
+
+    ctx.hyp('vendor/bqr', bqr, st.tuples(ids, specgen.fields_strategy(BQR.fields, 254)), max_examples=n)
+
+    params = st.one_of(st.just(b''), st.binary(max_size=8), st.binary(min_size=255, max_size=255), st.binary(max_size=255))
+
+    def declined(p):
+        if p[:1] == bytes([BQR_SUBEVENT]):
+            p = bytes([BQR_SUBEVENT ^ 0x01]) + p[1:]
+        packet = header(EVT, hci.HCI_VENDOR_EVENT, p) + p
+        case = {'kind': 'packet', 'packet': packet}
+        labels = judge_vendor_event(ctx, packet, case)
+        ctx.case(('vd', p), len(p) > 0, labels | {'vendor_event_factory'}, sample={'vendor_event_declined': packet.hex()})
+
+    ctx.hyp('vendor/declined', declined, params, max_examples=n)
+    # directed: the shortest events, with and without the first byte of a Quality Report
+    for p in (b'', b'\x00', bytes([BQR_SUBEVENT ^ 0x01]), bytes([BQR_SUBEVENT + 1, 0x01]), b'\xff' * 255):
+        declined(p)
+
+
+# --- every unregistered code of the 8-bit spaces; the 16-bit opcode space stratified / complete ---
+def judge_unknown(ctx, what: str, code: int, p: bytes) -> None:
+    if what == 'command':
+        packet = header(CMD, code, p) + p
+        make = lambda q: hci.HCI_Command(q.parameters, op_code=q.op_code)  # noqa: E731
+        same = lambda q: type(q) is hci.HCI_Command and q.op_code == code and q.parameters == p  # noqa: E731
+    elif what == 'event':
+        packet = header(EVT, code, p) + p
+        make = lambda q: hci.HCI_Event(q.parameters, event_code=q.event_code)  # noqa: E731
+        same = lambda q: type(q) is hci.HCI_Event and q.event_code == code and q.parameters == p  # noqa: E731
+    else:
+        body = bytes([code]) + p
+        packet = header(EVT, 0x3E, body) + body
+        make = lambda q: hci.HCI_LE_Meta_Event(subevent_code=q.subevent_code, parameters=q.parameters)  # noqa: E731
+        same = lambda q: type(q) is hci.HCI_LE_Meta_Event and q.subevent_code == code and q.parameters == body  # noqa: E731
+    case = {'kind': 'packet', 'packet': packet}
+    try:
+        parsed = hci.HCI_Packet.from_bytes(packet)
+        if not same(parsed):
+            ctx.fail(f'unknown/{what}_not_generic', f'unknown code 0x{code:02x} not carried as a generic {what} with its parameters', case)
+        elif bytes(parsed) != packet or bytes(make(parsed)) != packet:
+            ctx.fail(f'unknown/{what}_reencode', f'generic {what} does not re-serialise to the same bytes', case)
+    except Exception as e:
+        ctx.fail(f'unknown/{what}_raises/{type(e).__name__}', f'unknown code 0x{code:02x}: {e!r}', case)
+
+
+def run_sweeps(ctx):
+    """Plain enumerations. The two 8-bit spaces are small: every shard runs them completely, so their
+    floors hold per shard. The opcode space is stratified in the quick tier and complete (split over the
+    shards) in the thorough tier."""
+    long = bytes(range(1, 256))
+    n_evt = n_sub = n_op = 0
+    known_evts = set(hci.HCI_Event.event_classes) | {0x3E, 0xFF}
+    for code in range(256):
+        if code in known_evts:
+            continue
+        for p in (b'', b'\xa5', long):
+            judge_unknown(ctx, 'event', code, p)
+            ctx.case(('sweep_e', code, len(p)), len(p) > 0, {'sweep_event'})
+            n_evt += 1
+    for sub in range(256):
+        if sub in hci.HCI_LE_Meta_Event.subevent_classes:
+            continue
+        for p in (b'', b'\xa5', long[:254]):
+            judge_unknown(ctx, 'subevent', sub, p)
+            ctx.case(('sweep_s', sub, len(p)), len(p) > 0, {'sweep_subevent'})
+            n_sub += 1
+    known_ops = hci.HCI_Command.command_classes
+    edge = {0, 1, 2, 0x3FE, 0x3FF}
+    for op in range(0x10000):
+        if op in known_ops:
+            continue
+        if ctx.quick:
+            if (op & 0x3FF) not in edge and op % 61:
+                continue
+        elif op % ctx.nshards != ctx.shard:
+            continue
+        p = (b'', b'\x5a', long)[op % 3]
+        judge_unknown(ctx, 'command', op, p)
+        ctx.case(('sweep_c', op), len(p) > 0, {'sweep_opcode'})
+        n_op += 1
+    return n_evt, n_sub, n_op
+
+
+# --- repeated groups filled up to what the packet can hold -----------------------------------
+@st.composite
+def full_group_fields(draw, fields, budget: int = 255, prefix: bytes = b''):
+    """specgen.fields_strategy with the item count of every repeated group taken from the top of its
+    range: as many items as still fit (the other fields keep their minimum), one fewer, 128, 7."""
+    values, expected, wire, counts = {}, {}, b'', []
+    flat = list(fields)
+    tail_need = [0] * (len(flat) + 1)
+    for i in range(len(flat) - 1, -1, -1):
+        tail_need[i] = tail_need[i + 1] + specgen.group_min_size(flat[i])
+    for i, f in enumerate(flat):
+        last = i == len(flat) - 1
+        room = budget - len(wire) - tail_need[i + 1]
+        if isinstance(f, list):
+            sub_min = [specgen.min_size(s) for _, s in f]
+            item_min = sum(sub_min)
+            max_items = max(0, min(255, (room - 1) // max(1, item_min)))
+            count = draw(st.sampled_from(sorted({max_items, max(0, max_items - 1), min(max_items, 128), min(max_items, 7)})))
+            counts.append(count)
+            for name, _ in f:
+                values[name], expected[name] = [], []
+            wire += bytes([count])
+            for j in range(count):
+                for k, (name, s) in enumerate(f):
+                    reserve = tail_need[i + 1] + (count - j - 1) * item_min + sum(sub_min[k + 1 :])
+                    if specgen.classify(s)[0] in ('var', 'nested'):
+                        # keep variable-size items small so that the count, not one item, fills the packet
+                        budget_here = min(budget - len(wire) - reserve, sub_min[k] + 2)
+                    else:
+                        budget_here = budget - len(wire) - reserve
+                    v, w, e = draw(specgen.field_value(s, prefix + wire, budget_here, False))
+                    values[name].append(v)
+                    expected[name].append(e)
+                    wire += w
+            continue
+        name, s = f
+        if specgen.classify(s)[0] in ('var', 'rest', 'lpbytes'):
+            room = min(room, specgen.min_size(s) + 2)
+        v, w, e = draw(specgen.field_value(s, prefix + wire, room, last))
+        values[name], expected[name] = v, e
+        wire += w
+    return values, wire, expected, counts
+
+
+def _has_group(fields) -> bool:
+    return any(isinstance(f, list) for f in fields)
+
+
+def run_full_groups(ctx, n):
+    classes = 0
+    for kind, registry in ((CMD, hci.HCI_Command.command_classes), (EVT, hci.HCI_Event.event_classes),
+                           (LE, hci.HCI_LE_Meta_Event.subevent_classes)):
+        for code in sorted(registry):
+            cls = registry[code]
+            if cls in SPECIAL or not _has_group(cls.fields):
+                continue
+            classes += 1
+
+            def one(drawn, kind=kind, cls=cls, code=code):
+                values, wire, expected, counts = drawn
+                packet = header(kind, code, wire) + wire
+                case = {'kind': 'packet', 'packet': packet}
+                check_packet(ctx, kind, cls, packet, values, expected, case)
+                labels = {'full_group'} | ({'full_group_ge32'} if max(counts) >= 32 else set())
+                ctx.case((cls.__name__, wire), nontrivial(wire), labels, sample={'class': cls.__name__, 'packet': packet.hex()})
+
+            ctx.hyp(f'full/{cls.__name__}', one, full_group_fields(cls.fields, 255 - (1 if kind == LE else 0)), max_examples=n)
+    for code in sorted(hci.HCI_Command.command_classes):
+        cmd = hci.HCI_Command.command_classes[code]
+        rp = getattr(cmd, 'return_parameters_class', None)
+        if rp is None or not issubclass(cmd, hci.HCI_SyncCommand) or not _has_group(rp.fields) or has_custom_return_codec(cmd, rp):
+            continue
+        if not issubclass(rp, hci.HCI_StatusReturnParameters):
+            raise HarnessError(f'{rp.__name__}: repeated group in return parameters without a status')
+        classes += 1
+
+        def one_rp(drawn, cmd=cmd, rp=rp, code=code):
+            values, wire, expected, counts = drawn
+            rp_wire = b'\x00' + wire
+            body_wire = b'\x01' + code.to_bytes(2, 'little') + rp_wire
+            packet = header(EVT, hci.HCI_COMMAND_COMPLETE_EVENT, body_wire) + body_wire
+            v = {'num_hci_command_packets': 1, 'command_opcode': code, 'return_parameters': rp(status=hci.HCI_ErrorCode(0), **values)}
+            e = {'num_hci_command_packets': 1, 'command_opcode': code, 'return_parameters': rp(status=hci.HCI_ErrorCode(0), **expected)}
+            case = {'kind': 'packet', 'packet': packet}
+            check_packet(ctx, CC, hci.HCI_Command_Complete_Event, packet, v, e, case)
+            labels = {'full_group', 'full_group_cc'} | ({'full_group_ge32'} if max(counts) >= 32 else set())
+            ctx.case((cmd.__name__, 'cc', rp_wire, 1), True, labels, sample={'command_complete_for': cmd.__name__, 'packet': packet.hex()})
+
+        ctx.hyp(f'full/cc/{cmd.__name__}', one_rp, full_group_fields(rp.fields[1:], 251, prefix=b'\x00'), max_examples=n)
+    return classes
+
+
 def run(ctx) -> None:
     per_class = ctx.n(60, 1500)
     c = run_registry(ctx, CMD, hci.HCI_Command.command_classes, per_class)
@@ -510,6 +1062,13 @@ def run(ctx) -> None:
     r = run_command_complete(ctx, max(5, per_class // 3))
     run_unknown(ctx, ctx.n(200, 20000))
     run_data(ctx, ctx.n(400, 40000))
+    # extension families
+    run_cc_generic(ctx, ctx.n(300, 30000))
+    run_vendor_events(ctx, ctx.n(150, 15000))
+    n_evt, n_sub, n_op = run_sweeps(ctx)
+    g = run_full_groups(ctx, ctx.n(6, 400))
+    ctx.extra['sweeps'] = {'unknown_event_cases': n_evt, 'unknown_subevent_cases': n_sub, 'unknown_opcode_cases': n_op}
+    ctx.extra['classes_with_repeated_groups'] = g
     run_fuzz(ctx)
     ctx.extra['classes_registered'] = {
         'commands': len(hci.HCI_Command.command_classes),
@@ -524,6 +1083,25 @@ def run(ctx) -> None:
                   'unknown_subevent', 'vendor_event', 'cc_success', 'cc_error_status', 'spec:nested', 'spec:enum',
                   'spec:var', 'spec:rest', 'spec:bytes', 'spec:sint', 'spec:address_preceded'):
         ctx.floor(label, 5)
+    # extension: classes that must not silently vanish
+    if g < 10:
+        raise HarnessError(f'only {g} classes with a repeated group were found')
+    for label in ('vendor_command', 'vendor_cc', 'vcaps_full', 'vcaps_status_only', 'vcaps_layout15', 'vcaps_layout9',
+                  'vcaps_layout16', 'vcaps_layout21', 'vendor_bqr', 'vendor_bqr_other_id', 'vendor_declined',
+                  'cc_generic_nop', 'cc_generic_async', 'cc_generic_unknown',
+                  'opaque_ref:CodingFormat', 'opaque_ref:random_address', 'full_group_cc'):
+        ctx.floor(label, 3)
+    ctx.floor('vendor_declined_empty', 1)
+    ctx.floor('plain_int_enum', 500)
+    ctx.floor('full_group', 60)
+    ctx.floor('full_group_ge32', 15)
+    ctx.floor('sweep_event', n_evt)
+    ctx.floor('sweep_subevent', n_sub)
+    ctx.floor('sweep_opcode', 1000)
+    if min(n_evt, n_sub) < 300:
+        raise HarnessError('the 8-bit code sweeps shrank')
+    if ctx.labels.get('opaque_unreferenced', 0):
+        ctx.notes.append(f"{ctx.labels['opaque_unreferenced']} cases had an opaque field spec without a harness-side reference")
 
 
 # ---------------------------------------------------------------------------
@@ -550,6 +1128,9 @@ def replay(ctx, case) -> None:
         cls = hci.HCI_LE_Meta_Event.subevent_classes.get(packet[3])
         body = packet[4:]
         kind = LE
+    elif t == 0x04 and packet[1] == 0xFF and not case.get('no_factories'):
+        judge_vendor_event(ctx, packet, case)
+        return
     elif t == 0x04:
         cls = hci.HCI_Event.event_classes.get(packet[1])
         body = packet[3:]
@@ -557,10 +1138,33 @@ def replay(ctx, case) -> None:
     else:
         return _replay_data(ctx, case, packet)
     if cls is None:
+        # unregistered code: the generic-packet clauses
+        if kind == CMD:
+            judge_unknown(ctx, 'command', op, body)
+        elif kind == LE:
+            judge_unknown(ctx, 'subevent', packet[3], body)
+        else:
+            judge_unknown(ctx, 'event', packet[1], body)
         return
+    saved_factories = list(hci.HCI_Event.vendor_factories)
+    if case.get('no_factories'):
+        hci.HCI_Event.vendor_factories.clear()
+    try:
+        _replay_registered(ctx, case, packet, kind, cls, body)
+    finally:
+        hci.HCI_Event.vendor_factories[:] = saved_factories
+
+
+def _replay_registered(ctx, case, packet, kind, cls, body) -> None:
     if cls is hci.HCI_Command_Complete_Event:
         op = int.from_bytes(body[1:3], 'little')
+        if cc_is_generic(op):
+            judge_cc_generic(ctx, packet, case)
+            return
         cmd = hci.HCI_Command.command_classes[op]
+        if cmd is VCAPS:
+            judge_vcaps(ctx, packet, case)
+            return
         rp = cmd.return_parameters_class
         if issubclass(rp, hci.HCI_StatusReturnParameters) and body[3] != 0:
             rpo = hci.HCI_StatusReturnParameters(status=hci.HCI_ErrorCode(body[3]))
@@ -574,7 +1178,8 @@ def replay(ctx, case) -> None:
         v = decode_special(cls, body)
     else:
         v, _ = specgen.decode_fields(cls.fields, body, 0)
-    check_packet(ctx, kind, cls, packet, v, v, case)
+    if check_packet(ctx, kind, cls, packet, v, v, case) and cls not in SPECIAL:
+        check_opaque_reference(ctx, cls, packet, len(packet) - len(body), case)
 
 
 def _replay_data(ctx, case, packet):
